@@ -135,7 +135,8 @@ def _size(stmts: Sequence[ast.stmt]) -> int:
 
 def method_outcomes(repo: Repo, rel: str, cls: str, method: str, *, max_paths: int = 64, inline_public: bool = False) -> List[Outcome]:
     """inline_public: also inline small PUBLIC methods of the same class (by default only `_private` helpers are read through)"""
-    fn = repo.func(rel, f'{cls}.{method}')
+    from .pyfacts import hoist_value_helpers
+    fn = hoist_value_helpers(repo, rel, repo.func(rel, f'{cls}.{method}'), cls)        # `f(self._advance(n))` reads as `advance; f(self.cursor)`
     own = {n: fs[-1] for n, fs in repo.methods(rel, cls).items()}
     return block_outcomes(list(fn.body), own, f'{cls}.{method}', max_paths=max_paths, env0=module_constants(repo, rel), inline_public=inline_public)
 
